@@ -552,12 +552,16 @@ def _check_parallel_order(ctx, prog, exp_ci):
                 rank_ok = False
                 if regroup is not None:
                     key = regroup.slice.args[0]
-                    ranks = [n_.value.id for n_ in ast.walk(key) if isinstance(n_, ast.Subscript) and isinstance(n_.value, ast.Name)]
-                    for rk in ranks:
-                        for d_ in defs.get(rk, []):
-                            if isinstance(d_, ast.Call) and call_name(d_) == "pd.Series" and \
-                                    any(k.arg == "index" and isinstance(k.value, ast.Name) and k.value.id == ids_e.id for k in d_.keywords):
-                                rank_ok = True
+                    rank_defs = []
+                    for n_ in ast.walk(key):
+                        if isinstance(n_, ast.Subscript) and isinstance(n_.value, ast.Name):
+                            rank_defs.extend(defs.get(n_.value.id, []))
+                        elif isinstance(n_, ast.Subscript) and isinstance(n_.value, ast.Call):
+                            rank_defs.append(n_.value)              # the rank table written in place
+                    for d_ in rank_defs:
+                        if isinstance(d_, ast.Call) and call_name(d_) == "pd.Series" and \
+                                any(k.arg == "index" and isinstance(k.value, ast.Name) and k.value.id == ids_e.id for k in d_.keywords):
+                            rank_ok = True
                 if rank_ok:
                     ctx.holds(f, st, "%s: value rows are regrouped by a stable argsort of each row's rank in the identifier array %s: "
                               "element blocks contiguous and in the identifiers' order" % (f.name, ids_e.id))
@@ -591,14 +595,21 @@ def _check_value_order(ctx, prog, exp_ci, imp_ci):
         idl = {st.targets[0].id for st in walk_function(f.node) if isinstance(st, ast.Assign) and isinstance(st.targets[0], ast.Name)
                and any(isinstance(x, ast.Constant) and x.value == "MYGEOMETRYIDS" for x in ast.walk(st.value))}
         for c in calls_in(f.node):
-            if isinstance(c.func, ast.Attribute) and c.func.attr in ("merge", "join") and idl:
+            left_ids = isinstance(c.func, ast.Attribute) and c.func.attr in ("merge", "join") and any(
+                isinstance(x, ast.Constant) and x.value == "MYGEOMETRYIDS" for x in ast.walk(c.func.value)) and not any(
+                isinstance(x, ast.Call) and isinstance(x.func, ast.Attribute) and x.func.attr in ("merge", "join") for x in ast.walk(c.func.value))
+            if isinstance(c.func, ast.Attribute) and c.func.attr in ("merge", "join") and (idl or left_ids):
+                in_place_ids = left_ids
                 recv = c.func.value
                 while isinstance(recv, (ast.Call, ast.Attribute, ast.Subscript)):
                     recv = recv.func.value if isinstance(recv, ast.Call) and isinstance(recv.func, ast.Attribute) else \
                         (recv.value if not isinstance(recv, ast.Call) else recv.args[0] if recv.args else recv.func)
                 how = next((const_value(k.value) for k in c.keywords if k.arg == "how"), "inner" if c.func.attr == "merge" else "left")
                 n += 1
-                if isinstance(recv, ast.Name) and recv.id in idl and how in ("inner", "left"):
+                if in_place_ids and how in ("inner", "left"):
+                    ctx.holds(f, c, "%s: <frame of MYGEOMETRYIDS>.%s(..., how=%r): result rows follow the variable's identifier order" %
+                              (f.name, c.func.attr, how))
+                elif isinstance(recv, ast.Name) and recv.id in idl and how in ("inner", "left"):
                     ctx.holds(f, c, "%s: %s.%s(..., how=%r): result rows follow the variable's identifier order" %
                               (f.name, recv.id, c.func.attr, how))
                 else:
@@ -1252,8 +1263,17 @@ def _check_rollback(ctx, prog, W, exp_ci):
             if mode != "a":
                 continue
             creating = []
+
+            def eval_order(n):
+                """calls of a statement in the order they are evaluated (receiver and arguments before the call itself)"""
+                out = []
+                for ch in ast.iter_child_nodes(n):
+                    out.extend(eval_order(ch))
+                if isinstance(n, ast.Call):
+                    out.append(n)
+                return out
             for s in t.body:
-                for c in calls_in(s):
+                for c in eval_order(s):
                     r = _creates(prog, fi, c)
                     if r is not None:
                         creating.append((c, r))
